@@ -141,6 +141,30 @@ CHECKS = {'C01': {'level': 'exploration',
                     'checks': {'quick': 400, 'thorough': 4000},
                     'shards': {'quick': 1, 'thorough': 16},
                     'timeout': {'quick': 900, 'thorough': 3400}}]},
+ 'C13': {'level': 'fault_enumeration',
+         'rule': 'files: (i) snapshots of generated collections (0..3 blocks, thinned to a few dozen rows on block/word boundaries, keyed or not) '
+                 'taken while the verif hooks run 0..2 generated transactions synchronously at each of snapshot:recorder-open / pre-chunk:0..2 / '
+                 'pre-close / pre-copy, so the file holds block states cut at different times plus 0..N logged commits over several blocks; (ii) '
+                 'commit-log streams with 1..6 commits built from generated op lists over several blocks. Truncation offsets are ENUMERATED per '
+                 'file: thorough = every byte offset (exhaustive per file); quick = every s2 frame boundary +-2, the state/log junction +-2, 0, 1, '
+                 'len-2, len-1 and 120-150 drawn offsets. Oracle: Restore(prefix) into a fresh collection, under a 20 s watchdog and recover, either '
+                 'returns an error or the restored dump equals E_k for some k: every block = its cut state plus those of the first k logged commits '
+                 'that are newer than the cut, the SAME k for all blocks (E_k computed from reference-model states saved after each tail '
+                 'transaction); Log.Range(prefix) delivers a prefix of the appended commits, each op-for-op equal, then nil or an error. Panic, hang '
+                 'or any other state = violation. The complete file must restore to the state at recorder close. non-trivial = the prefix ends '
+                 'inside the log tail or inside the state section and the call returned nil (snapshots) / nil after a strict non-empty prefix of the '
+                 'commits (logs); distinct = (file, offset)',
+         'assumptions': ['a crash leaves a prefix of the byte stream (no torn or reordered sectors)',
+                         'which files are generated is random (rapid); offsets per file are enumerated as stated (coverage.exhaustive is true only '
+                         'in the thorough tier)'],
+         'tests': [{'run': '^TestC13Snapshot$',
+                    'checks': {'quick': 60, 'thorough': 300},
+                    'shards': {'quick': 1, 'thorough': 12},
+                    'timeout': {'quick': 900, 'thorough': 3400}},
+                   {'run': '^TestC13Log$',
+                    'checks': {'quick': 80, 'thorough': 400},
+                    'shards': {'quick': 1, 'thorough': 4},
+                    'timeout': {'quick': 900, 'thorough': 3400}}]},
  'C14': {'level': 'fault_enumeration',
          'rule': 'per generated collection (empty, <=120 rows, one block + 6 rows, 33000 rows thinned by a patterned delete; keyed or not; with or '
                  'without a LOG TAIL produced by transactions that the verif hooks run synchronously at snapshot:recorder-open / pre-chunk / '
